@@ -101,13 +101,16 @@ structure ChunkAcc where
 
 def isAsciiText (t : Text) : Bool := t.all (· < 128)
 
+/-- `is_invalid_chunk` on a decoded chunk: "ascii" additionally requires ASCII-only text -/
+def validChunk (T : Tables E) (e : E) (ch : Text) : Option Text :=
+  if e = T.ascii ∧ !isAsciiText ch then none else some ch
+
 /-- 403-418 + `is_invalid_chunk`: the text of the chunk at `off`, `none` if invalid -/
 def chunkAt (W : World E L) (T : Tables E) (c : Ctx E) (e : E) (payload : Option Text) (seqLen off : Nat) :
     M (Option Text) :=
   match payload with
   | some t =>
-    let ch := (t.drop off).take c.chunk
-    .ok (if e = T.ascii ∧ !isAsciiText ch then none else some ch)
+    .ok (validChunk T e ((t.drop off).take c.chunk))
   | none =>
     match sliceF 412 c.b off (min (off + c.chunk) seqLen) with
     | .error s => .error s
@@ -115,7 +118,7 @@ def chunkAt (W : World E L) (T : Tables E) (c : Ctx E) (e : E) (payload : Option
       match W.decode e sl with
       | .error s => .error s
       | .ok none => .ok none
-      | .ok (some ch) => .ok (if e = T.ascii ∧ !isAsciiText ch then none else some ch)
+      | .ok (some ch) => .ok (validChunk T e ch)
 
 /-- 402-445 -/
 def chunkLoop (W : World E L) (T : Tables E) (c : Ctx E) (e : E) (payload : Option Text) (seqLen maxGaveUp : Nat) :
@@ -158,76 +161,128 @@ inductive Verdict (E L : Type)
   | softFail (fallbackEntry : Option (Match E L))
   | accepted (m : Match E L)
 
-/-- 316-545. Reads the loop state only through `soft` (similarity skip). -/
-def probe (W : World E L) (T : Tables E) (c : Ctx E) (soft : List E) (e : E) : M (Verdict E L) :=
-  let bomHere : Bool := (c.sig.map (·.1)) == some e
-  if !bomHere ∧ (e = T.utf16le ∨ e = T.utf16be) then .ok .needsBom else
-  let startIdx := if bomHere then (match c.sig with | some s => s.2.length | none => 0) else 0
-  let isMb := T.isMultiByte e
-  let lazy : Bool := c.tooLarge && !isMb
-  let len := c.b.length
-  let endIdx := if lazy then T.maxProcessed else len
-  match sliceF 341 c.b startIdx endIdx with
+/-- what the first stage of a probe establishes (316-367) -/
+structure Prepared where
+  bomHere  : Bool
+  startIdx : Nat
+  lazy     : Bool
+  /-- the strictly decoded payload; `none` on the lazy path (only test-decoded) -/
+  payload  : Option Text
+
+inductive Stage1 (E : Type)
+  | needsBom
+  | hardFail
+  | similarSkip (f : E)
+  | go (p : Prepared)
+
+def bomHereOf (c : Ctx E) (e : E) : Bool := (c.sig.map (·.1)) == some e
+
+def startIdxOf (c : Ctx E) (e : E) : Nat :=
+  if bomHereOf c e then (match c.sig with | some s => s.2.length | none => 0) else 0
+
+def lazyOf (T : Tables E) (c : Ctx E) (e : E) : Bool := c.tooLarge && !T.isMultiByte e
+
+def endIdxOf (T : Tables E) (c : Ctx E) (e : E) : Nat :=
+  if lazyOf T c e then T.maxProcessed else c.b.length
+
+def payloadOf (T : Tables E) (c : Ctx E) (e : E) (t0 : Text) : Option Text :=
+  if lazyOf T c e then none else some t0
+
+def needsBomCond (T : Tables E) (c : Ctx E) (e : E) : Bool :=
+  !bomHereOf c e && (decide (e = T.utf16le) || decide (e = T.utf16be))
+
+/-- 316-367: BOM requirement, fast strict pre-check, similarity skip -/
+def probePrepare (W : World E L) (T : Tables E) (c : Ctx E) (soft : List E) (e : E) : M (Stage1 E) :=
+  if needsBomCond T c e then .ok .needsBom else
+  match sliceF 341 c.b (startIdxOf c e) (endIdxOf T c e) with
   | .error s => .error s
   | .ok sl =>
   match W.decode e sl with
   | .error s => .error s
   | .ok none => .ok .hardFail
   | .ok (some t0) =>
-  let payload : Option Text := if lazy then none else some t0
   match soft.find? (fun f => T.similar e f) with
   | some f => .ok (.similarSkip f)
-  | none =>
-  let maxGaveUp := max 2 (c.steps / 4)
-  let seqLen := match payload with | some t => t.length | none => len
-  let startOff := if bomHere ∧ payload.isNone then startIdx else 0
-  match divF 397 seqLen c.steps with
+  | none => .ok (.go { bomHere := bomHereOf c e, startIdx := startIdxOf c e, lazy := lazyOf T c e,
+                       payload := payloadOf T c e t0 })
+
+def maxGaveUpOf (c : Ctx E) : Nat := max 2 (c.steps / 4)
+
+def seqLenOf (c : Ctx E) (p : Prepared) : Nat :=
+  match p.payload with | some t => t.length | none => c.b.length
+
+/-- 370-445: the sampled chunks and their mess ratios -/
+def startOffOf (p : Prepared) : Nat := if p.bomHere ∧ p.payload.isNone then p.startIdx else 0
+
+def probeChunks (W : World E L) (T : Tables E) (c : Ctx E) (e : E) (p : Prepared) : M ChunkAcc :=
+  match divF 397 (seqLenOf c p) c.steps with
   | .error s => .error s
-  | .ok q =>
-  let offs := offsets startOff seqLen (max q 1)
-  match chunkLoop W T c e payload seqLen maxGaveUp offs {} with
-  | .error s => .error s
-  | .ok acc =>
-  -- 447-467: remainder of a lazily decoded payload
-  let remainder : M Bool :=        -- true = hard failure
-    if !acc.lazyHard ∧ lazy then
-      match sliceF 451 c.b T.maxProcessed len with
+  | .ok q => chunkLoop W T c e p.payload (seqLenOf c p) (maxGaveUpOf c)
+               (offsets (startOffOf p) (seqLenOf c p) (max q 1)) {}
+
+/-- 447-467: remainder of a lazily decoded payload; `true` = hard failure -/
+def asciiInvalid (T : Tables E) (e : E) (t : Text) : Bool := decide (e = T.ascii) && !isAsciiText t
+
+def probeRemainder (W : World E L) (T : Tables E) (c : Ctx E) (e : E) (p : Prepared) (acc : ChunkAcc) : M Bool :=
+  if (!acc.lazyHard && p.lazy) = true then
+    match sliceF 451 c.b T.maxProcessed c.b.length with
+    | .error s => .error s
+    | .ok sl2 =>
+      match W.decode e sl2 with
       | .error s => .error s
-      | .ok sl2 =>
-        match W.decode e sl2 with
-        | .error s => .error s
-        | .ok none => .ok true
-        | .ok (some t2) =>
-          if e = T.ascii ∧ !isAsciiText t2 then
-            (if c.trace then fault (.unwrapNone 462) else .ok true)
-          else .ok false
-    else .ok false
-  match remainder with
-  | .error s => .error s
-  | .ok true => .ok .hardFail
-  | .ok false =>
-  let mean := meanRatio acc.ratios
-  if Fl.ge mean c.thr ∨ maxGaveUp ≤ acc.early then
-    if c.fallback ∧ !acc.lazyHard ∧ c.prio.contains e then
-      match mkMatch W c.b e c.thr false [] payload with
-      | .error s => .error s
-      | .ok fb => .ok (.softFail (some fb))
-    else .ok (.softFail none)
-  else
-  let cds : M (List (List (L × F32))) :=
-    if e = T.ascii then .ok [] else
-      match W.target e with
-      | .error s => .error s
-      | .ok langs => cohAll W c.langThr langs acc.chunks
-  match cds with
+      | .ok none => .ok true
+      | .ok (some t2) => .ok (asciiInvalid T e t2)
+  else .ok false
+
+def softFailCond (c : Ctx E) (acc : ChunkAcc) : Bool :=
+  Fl.ge (meanRatio acc.ratios) c.thr || decide (maxGaveUpOf c ≤ acc.early)
+
+/-- 485-503: the fallback entry prepared on a soft failure -/
+def fallbackCond (c : Ctx E) (e : E) (acc : ChunkAcc) : Bool :=
+  c.fallback && !acc.lazyHard && c.prio.contains e
+
+def probeSoft (W : World E L) (c : Ctx E) (e : E) (p : Prepared) (acc : ChunkAcc) : M (Verdict E L) :=
+  if fallbackCond c e acc then
+    match mkMatch W c.b e c.thr false [] p.payload with
+    | .error s => .error s
+    | .ok fb => .ok (.softFail (some fb))
+  else .ok (.softFail none)
+
+/-- 512-545: coherence of the analysed chunks and the resulting match -/
+def cdsOf (W : World E L) (T : Tables E) (c : Ctx E) (e : E) (acc : ChunkAcc) : M (List (List (L × F32))) :=
+  if e = T.ascii then .ok [] else
+    match W.target e with
+    | .error s => .error s
+    | .ok langs => cohAll W c.langThr langs acc.chunks
+
+def probeAccept (W : World E L) (T : Tables E) (c : Ctx E) (e : E) (p : Prepared) (acc : ChunkAcc) :
+    M (Verdict E L) :=
+  match cdsOf W T c e acc with
   | .error s => .error s
   | .ok cdl =>
   match W.merge cdl with
   | .error s => .error s
   | .ok merged =>
-  match mkMatch W c.b e mean bomHere merged payload with
+  match mkMatch W c.b e (meanRatio acc.ratios) p.bomHere merged p.payload with
   | .error s => .error s
   | .ok m => .ok (.accepted m)
+
+/-- 316-545. Reads the loop state only through `soft` (similarity skip). -/
+def probe (W : World E L) (T : Tables E) (c : Ctx E) (soft : List E) (e : E) : M (Verdict E L) :=
+  match probePrepare W T c soft e with
+  | .error s => .error s
+  | .ok .needsBom => .ok .needsBom
+  | .ok .hardFail => .ok .hardFail
+  | .ok (.similarSkip f) => .ok (.similarSkip f)
+  | .ok (.go p) =>
+  match probeChunks W T c e p with
+  | .error s => .error s
+  | .ok acc =>
+  match probeRemainder W T c e p acc with
+  | .error s => .error s
+  | .ok true => .ok .hardFail
+  | .ok false =>
+  if softFailCond c acc then probeSoft W c e p acc else probeAccept W T c e p acc
 
 structure LoopState (E L : Type) where
   soft    : List E := []
@@ -249,6 +304,20 @@ inductive Outcome (E L : Type)
   | exit (m : Match E L)
   | done (st : LoopState E L)
 
+/-- 476-503: bookkeeping after a soft failure -/
+def softUpdate (T : Tables E) (c : Ctx E) (st : LoopState E L) (e : E) (fb : Option (Match E L)) :
+    LoopState E L :=
+  match fb with
+  | none => { st with soft := st.soft ++ [e] }
+  | some entry =>
+    if c.declared = some e then { st with soft := st.soft ++ [e], fbSpec := some entry }
+    else if e = T.ascii then { st with soft := st.soft ++ [e], fbAscii := some entry }
+    else { st with soft := st.soft ++ [e], fbU8 := some entry }
+
+/-- 554-559: `results.get_by_encoding(e)` for a supported `e` -/
+def findByCand (items : List (Match E L)) (e : E) : Option (Match E L) :=
+  items.find? (fun x => x.cands.contains e)
+
 /-- 305-561 -/
 def detectLoop (W : World E L) (T : Tables E) (sort : Sorter E L) (c : Ctx E) (incl excl : List E) :
     List E → LoopState E L → M (Outcome E L)
@@ -260,22 +329,13 @@ def detectLoop (W : World E L) (T : Tables E) (sort : Sorter E L) (c : Ctx E) (i
     | .ok .needsBom => detectLoop W T sort c incl excl es st
     | .ok .hardFail => detectLoop W T sort c incl excl es st
     | .ok (.similarSkip _) => detectLoop W T sort c incl excl es st
-    | .ok (.softFail fb) =>
-      let st1 := { st with soft := st.soft ++ [e] }
-      let st2 := match fb with
-        | none => st1
-        | some entry =>
-          if c.declared = some e then { st1 with fbSpec := some entry }
-          else if e = T.ascii then { st1 with fbAscii := some entry }
-          else { st1 with fbU8 := some entry }
-      detectLoop W T sort c incl excl es st2
+    | .ok (.softFail fb) => detectLoop W T sort c incl excl es (softUpdate T c st e fb)
     | .ok (.accepted m) =>
-      let results' := append sort T.tooBig st.results m
       if exitCond c e m.chaos then
-        match results'.find? (fun x => x.cands.contains e) with
+        match findByCand (append sort T.tooBig st.results m) e with
         | none => fault .entryMissing
         | some x => .ok (.exit x)
-      else detectLoop W T sort c incl excl es { st with results := results' }
+      else detectLoop W T sort c incl excl es { st with results := append sort T.tooBig st.results m }
 
 /-- 564-583 -/
 def pickFallback (st : LoopState E L) : Option (Match E L) :=
@@ -285,6 +345,23 @@ def pickFallback (st : LoopState E L) : Option (Match E L) :=
   | none, some u, some a => if u.text != a.text then some u else some a
   | none, none, some a => some a
   | none, none, none => none
+
+/-- 222-283: the loop context of an input under (canonicalised) settings -/
+def ctxOf (T : Tables E) (b : Bytes) (s : Settings) : Ctx E :=
+  { b := b, steps := (normWindow b.length s.steps s.chunk).1, chunk := (normWindow b.length s.steps s.chunk).2,
+    thr := s.thr, langThr := s.langThr,
+    sig := sigOf T.marks b, tooLarge := decide (T.tooBig < b.length),
+    prio := prioritized T b s.preemptive,
+    declared := if s.preemptive then T.declared b else none,
+    fallback := s.fallback, trace := s.trace }
+
+/-- 564-583 applied to the final loop state -/
+def finish (sort : Sorter E L) (tooBig : Nat) (st : LoopState E L) : List (Match E L) :=
+  if st.results.isEmpty then
+    match pickFallback st with
+    | some fb => append sort tooBig st.results fb
+    | none => []
+  else st.results
 
 /-- `from_bytes`. `Except Err` is the documented error; `M` carries faults/oracle needs. -/
 def fromBytes (W : World E L) (T : Tables E) (sort : Sorter E L) (b : Bytes) (s : Settings) :
@@ -296,21 +373,9 @@ def fromBytes (W : World E L) (T : Tables E) (sort : Sorter E L) (b : Bytes) (s 
   | .error n => .ok (.error (.badExclude n))
   | .ok excl =>
   if b.isEmpty then .ok (.ok [Match.default T.utf8]) else
-  let len := b.length
-  let w := normWindow len s.steps s.chunk
-  let prio := prioritized T b s.preemptive
-  let c : Ctx E := { b := b, steps := w.1, chunk := w.2, thr := s.thr, langThr := s.langThr,
-                     sig := sigOf T.marks b, tooLarge := decide (T.tooBig < len), prio := prio,
-                     declared := if s.preemptive then T.declared b else none,
-                     fallback := s.fallback, trace := s.trace }
-  match detectLoop W T sort c incl excl (probeOrder T.supported prio) {} with
+  match detectLoop W T sort (ctxOf T b s) incl excl (probeOrder T.supported (prioritized T b s.preemptive)) {} with
   | .error st => .error st
   | .ok (.exit m) => .ok (.ok [m])
-  | .ok (.done st) =>
-    if st.results.isEmpty then
-      match pickFallback st with
-      | some fb => .ok (.ok (append sort T.tooBig st.results fb))
-      | none => .ok (.ok [])
-    else .ok (.ok st.results)
+  | .ok (.done st) => .ok (.ok (finish sort T.tooBig st))
 
 end Charset
